@@ -1720,10 +1720,11 @@ fn unary_case(args: &[&str]) -> Res {
     use dashu_base::{DivRem, PowerOfTwo, SquareRootRem};
     let bad = || Err("bad-op mem.arith".to_string());
     let (op, form) = (args[0], args[1]);
-    let signed = matches!(op, "idivrem" | "ishl" | "ishr" | "ipow" | "inot");
+    let two = matches!(op, "idivrem" | "idiveuc" | "iremeuc" | "idivremeuc");
+    let signed = two || matches!(op, "ishl" | "ishr" | "ipow" | "inot");
     let ok_hex = |s: &str| hex_to_words(s.strip_prefix('-').unwrap_or(s)).is_some();
     let form_ok = match op {
-        "idivrem" => matches!(form, "rr" | "rv" | "vr" | "vv"),
+        "idivrem" | "idiveuc" | "iremeuc" | "idivremeuc" => matches!(form, "rr" | "rv" | "vr" | "vv"),
         "ishl" | "ishr" => matches!(form, "v" | "r" | "a"),
         "inot" => matches!(form, "v" | "r"),
         "ipow" | "sqrtrem" | "sqrt" => form == "r",
@@ -1732,7 +1733,7 @@ fn unary_case(args: &[&str]) -> Res {
     if !form_ok || !(if signed { ok_hex(args[2]) } else { hex_to_words(args[2]).is_some() }) {
         return bad();
     }
-    let n: usize = if op == "idivrem" {
+    let n: usize = if two {
         if !ok_hex(args[3]) {
             return bad();
         }
@@ -1746,7 +1747,7 @@ fn unary_case(args: &[&str]) -> Res {
     hist_begin(true);
     let built = guarded(|| {
         let a = p_ibig(args[2]).unwrap();
-        let b = if op == "idivrem" { p_ibig(args[3]).unwrap() } else { IBig::ZERO };
+        let b = if two { p_ibig(args[3]).unwrap() } else { IBig::ZERO };
         (a, b)
     });
     clear_log();
@@ -1764,9 +1765,48 @@ fn unary_case(args: &[&str]) -> Res {
         U(UBig),
         II(IBig, IBig),
         UU(UBig, UBig),
+        IU(IBig, UBig),
     }
     let mut kept: Option<UBig> = None;
+    // round 6: `IBig`'s Euclidean division family, one call in one of the four ownership forms
+    macro_rules! forms2 {
+        ($m:ident) => {
+            match form {
+                "rr" => {
+                    let (x, y) = (a.as_ref().unwrap(), b.as_ref().unwrap());
+                    guarded(|| x.$m(y))
+                }
+                "rv" => {
+                    let x = a.as_ref().unwrap();
+                    let y = b.take().unwrap();
+                    guarded(move || x.$m(y))
+                }
+                "vr" => {
+                    let x = a.take().unwrap();
+                    let y = b.as_ref().unwrap();
+                    guarded(move || x.$m(y))
+                }
+                _ => {
+                    let x = a.take().unwrap();
+                    let y = b.take().unwrap();
+                    guarded(move || x.$m(y))
+                }
+            }
+        };
+    }
     let res: Result<Out, (String, String)> = match op {
+        "idiveuc" => {
+            use dashu_base::DivEuclid;
+            forms2!(div_euclid).map(Out::I)
+        }
+        "iremeuc" => {
+            use dashu_base::RemEuclid;
+            forms2!(rem_euclid).map(Out::U)
+        }
+        "idivremeuc" => {
+            use dashu_base::DivRemEuclid;
+            forms2!(div_rem_euclid).map(|(q, r)| Out::IU(q, r))
+        }
         "idivrem" => match form {
             "rr" => {
                 let (x, y) = (a.as_ref().unwrap(), b.as_ref().unwrap());
@@ -1886,6 +1926,7 @@ fn unary_case(args: &[&str]) -> Res {
         Ok(Out::U(r)) => head_ubig(r),
         Ok(Out::II(q, r)) => format!("{}&{}", head_ibig(q), head_ibig(r)),
         Ok(Out::UU(q, r)) => format!("{}&{}", head_ubig(q), head_ubig(r)),
+        Ok(Out::IU(q, r)) => format!("{}&{}", head_ibig(q), head_ubig(r)),
         Err((msg, loc)) => format!("!{}", classify_panic(msg, loc)),
     };
     let _ = guarded(move || {
@@ -2155,7 +2196,7 @@ pub fn arith_case(args: &[&str]) -> Res {
     if matches!(op, "divrem" | "divremeuc" | "diveuc" | "remeuc" | "divremassign") {
         return divrem_case(args);
     }
-    if matches!(op, "inot" | "idivrem" | "ishl" | "ishr" | "ipow" | "setbit" | "clearbit" | "clearhigh" | "splitbits" | "nextpow2" | "sqrtrem" | "sqrt") {
+    if matches!(op, "inot" | "idivrem" | "idiveuc" | "iremeuc" | "idivremeuc" | "ishl" | "ishr" | "ipow" | "setbit" | "clearbit" | "clearhigh" | "splitbits" | "nextpow2" | "sqrtrem" | "sqrt") {
         return unary_case(args);
     }
     if op == "pow" {
